@@ -751,6 +751,21 @@ def corpus() -> list[tuple[dict[str, Any], list[Any]]]:
                default={"o": [_S("Work"), [[_S("items"), {"l": []}]]]}))
     out.append((d9, [{"o": [_S("Doc"), [[_S("name"), {"s": _S("a")}], [_S("inner"), {"o": [_S("SeenInner"), [[_S("n"), {"i": 1}], [_S("seen"), {"l": []}]]]}],
                                         [_S("cache"), {"d": []}], [_S("work"), {"o": [_S("Work"), [[_S("items"), {"l": []}]]]}]]]}]))
+    # the `Annotated[X | None, ArrowType(pa.binary())]` field (declared not-null, holds None) inside a map value / list element,
+    # in a column that also has an Enum below a struct (built dictionary-free and cast: the cast refuses nulls under non-nullable
+    # children), alone and together with a None Enum-bearing struct
+    binopt = {"k": "opt", "a": {"k": "dcbin", "name": _S("BinB"), "fields": inner["fields"]}}
+    v2 = _c("V2", _f("c", binopt))
+    kenum = _c("KEnum", _f("e", color))
+    d10 = _c("CastNulls", _f("m", {"k": "map", "key": kenum, "val": v2}),
+             _f("x", _c("Outer2", _f("o", {"k": "opt", "a": innere}), _f("v", {"k": "list", "a": v2}))))
+    v2n = {"o": [_S("V2"), [[_S("c"), None]]]}
+    v2b = {"o": [_S("V2"), [[_S("c"), {"o": [_S("BinB"), [[_S("x"), {"i": 1}]]]}]]]}
+    ke = {"o": [_S("KEnum"), [[_S("e"), {"e": _S("RED")}]]]}
+    out.append((d10, [{"o": [_S("CastNulls"), [[_S("m"), {"d": [[ke, v2n]]}], [_S("x"), {"o": [_S("Outer2"), [[_S("o"), None], [_S("v"), {"l": [v2n]}]]]}]]]},
+                      {"o": [_S("CastNulls"), [[_S("m"), {"d": [[ke, v2b]]}], [_S("x"), {"o": [_S("Outer2"), [[_S("o"), {"o": [_S("InnerE"), [[_S("c"), {"e": _S("GREEN")}]]]}],
+                                                                                                           [_S("v"), {"l": [v2n, v2b]}]]]}]]]},
+                      {"o": [_S("CastNulls"), [[_S("m"), {"d": []}], [_S("x"), {"o": [_S("Outer2"), [[_S("o"), None], [_S("v"), {"l": []}]]]}]]]}]))
     d7 = _c("AllT", _f("t", {"k": "int"}, transient=True, default={"i": 7}))
     out.append((d7, [{"o": [_S("AllT"), [[_S("t"), {"i": 5}]]]}]))
     out.append((empty, [{"o": [_S("Empty"), []]}]))
@@ -888,6 +903,37 @@ def _run_class(ctx: Any, desc: dict[str, Any], objs: list[Any], origin: str) -> 
     q.flush()
 
 
+def gen_cast_mix(rng: Any) -> dict[str, Any]:
+    """A class whose one column combines what the serializer's two build strategies are sensitive to: an Enum below a struct,
+    Optional nested dataclasses (struct and binary-marked) that may be None, inside lists / maps / nested structs."""
+    enum = dcgen.gen_enum(rng)
+    leaf = dcgen.gen_cls(rng, 0, nfields=rng.choice([1, 2]))
+    binopt = {"k": "opt", "a": {**dcgen.gen_cls(rng, 0, nfields=1), "k": "dcbin"}}
+    with_enum = {"k": "dc", "name": s2j(f"ME{rng.getrandbits(30)}"), "fields": [
+        {"name": s2j("e"), "transient": False, "a": rng.choice([enum, {"k": "opt", "a": enum}])}]}
+    with_bin = {"k": "dc", "name": s2j(f"MB{rng.getrandbits(30)}"), "fields": [
+        {"name": s2j("c"), "transient": False, "a": binopt},
+        {"name": s2j("n"), "transient": False, "a": {"k": rng.choice(["int", "str"])}}]}
+    parts = [with_enum, {"k": "opt", "a": with_enum}, with_bin, {"k": "opt", "a": with_bin}, leaf]
+
+    def container(inner_ann: dict[str, Any]) -> dict[str, Any]:
+        r = rng.random()
+        if r < 0.35:
+            return {"k": "list", "a": inner_ann}
+        if r < 0.7:
+            key = with_enum if rng.random() < 0.4 else {"k": rng.choice(["str", "int"])}
+            return {"k": "map", "key": key, "val": inner_ann}
+        return inner_ann
+
+    fields = []
+    for nm in rng.sample(["a", "b", "c", "x", "y"], rng.choice([2, 3, 4])):
+        fields.append({"name": s2j(nm), "transient": False, "a": container(rng.choice(parts))})
+    mixed = {"k": "dc", "name": s2j(f"MX{rng.getrandbits(30)}"), "fields": fields}
+    # everything in ONE column: the mixed class as a nested field
+    return {"k": "dc", "name": s2j(f"MixTop{rng.getrandbits(30)}"), "fields": [
+        {"name": s2j("x"), "transient": False, "a": rng.choice([mixed, {"k": "list", "a": mixed}])}]}
+
+
 def run(ctx: Any) -> None:
     msgpack_shim.install()
     import vgi_rpc.utils as u
@@ -908,6 +954,8 @@ def run(ctx: Any) -> None:
         depth = rng.choice(list(range(0, max_depth + 1)))
         if i % 5 == 0:
             desc = dcgen.gen_cls(rng, 0, flat=True, nfields=rng.choice([1, 2, 3, 5]))
+        elif i % 10 == 3:
+            desc = gen_cast_mix(rng)
         else:
             desc = dcgen.gen_cls(rng, depth)
         objs = [dcgen.gen_value(rng, desc) for _ in range(n_inst)]
